@@ -296,8 +296,10 @@ class BaseEngine(abc.ABC):
                 # Copy the latest measured values in the RegRefs of p.
                 # We cannot copy from prev directly because it could be used in more than one
                 # engine.
-                for k, v in enumerate(self.samples):
-                    p.reg_refs[k].val = v
+                # pass on the measured values held by the registers of the previous segment
+                for k, r in prev.reg_refs.items():
+                    if k in p.reg_refs:
+                        p.reg_refs[k].val = r.val
 
             # bind free parameters to their values
             p.bind_params(args)
